@@ -114,6 +114,10 @@ func Symbolic() bool { return false }
 // Thorough reports whether the run is a thorough-tier run (VERIF_TIER=thorough).
 func Thorough() bool { return os.Getenv("VERIF_TIER") == "thorough" }
 
+// ConcreteClock: time is not the subject of this harness; the symbolic executor lets time.Now
+// return concrete instants stepNs apart instead of symbolic ones (a stated bound).
+func ConcreteClock(stepNs int64) {}
+
 // PacedClock states how the wall clock moves in this harness: two consecutive readings differ
 // by at most maxStepNs unless a Pause lies between them (natively: nothing to do, the code
 // between two readings takes far less).
